@@ -49,6 +49,15 @@ CHECKS = {
  "C16": ("exploration", "5 C16", "bounded exhaustive enumeration incl. the complete single-module basis of synthetic matrices",
    "to_str() of all S_cell symbols and of synthetic matrices (8 patterns x 40 sizes; one dark/one light module at every coordinate: quick 7 sizes, thorough all 40) is parsed back: line/character counts, alphabet, every module in place, one-module light border.",
    "The renderer is linear in the modules it reads (each character depends on two modules), so the single-module basis plus dense patterns covers position mix-ups."),
+ "C12": ("model_checking", "5 C12", "explicit-state breadth-first search over builder programs (model state hashed), every path replayed on the real SvgBuilder; plus exhaustive sweeps",
+   "All SvgBuilder call sequences to depth 3 (thorough 4) over a 25-operation alphabet are replayed on fresh real builders and rendered on two symbols; the abstract model (layer list, margin, colours, image) predicts the document, which an independent strict XML parser and SVG path interpreter check: well-formed, square viewBox/background, one path per layer, sub-paths in bijection with dark modules, single image element whose decoded href equals the string. Sweeps: 40 versions x 6 shapes x 4 margins; 5120 colours x all conversion routes; 832 image strings incl. all short strings over XML-special characters.",
+   "Model = 'setters overwrite, shape calls append'; every enumerated trace is an execution of the implementation (traces_validated_against_impl = all). Custom Shape::Command callbacks and string colours are out of scope."),
+ "C13": ("exploration", "5 C13", "bounded exhaustive enumeration of renderer configurations; independent PNG decoder as oracle",
+   "Square shape at original scale for all 40 versions (every pixel); 6 shapes x versions x margins x 9 fit requests x 3 colour pairs: pixmap square with the requested side, centre pixel of every cell exact, every pixel for the square shape at integer scale; to_bytes() decoded by an own PNG reader (inflate, CRCs, unfilter) equals the de-multiplied pixmap.",
+   "resvg/usvg/tiny-skia/png treated as part of the subject. Opaque module colours, background alpha 0/255 only."),
+ "C18": ("exploration", "5 C18", "bounded exhaustive enumeration of frame configurations, attributes parsed back from the SVG",
+   "All 2040 default placements (40 versions x 3 frame shapes x margins 0..16) and ~50k (100k thorough) override combinations: square, centred, module-aligned, monotone, < 40 %, clear of finders, image centred and no larger; overrides: requested size, gap (less at most one module), position honoured.",
+   "Real-valued overrides are a finite grid (the property says sampled)."),
  "C15": ("exploration", "5 C15", "bounded exhaustive enumeration of configurations, computed region map as oracle",
    "module_type() at each of the 477 320 coordinates of the 40 sizes, under all levels/masks/modes and several payloads, equals R's ISO region map; data-label count = 8 x codewords + remainder bits.",
    "Either label accepted where an alignment pattern overlaps a timing line."),
